@@ -107,6 +107,10 @@ def run(slug, checks):
         print("patch does not apply to /repo:", out)
         return 2
     results = {}
+    evdir = os.path.join(ROOT, "evidence")
+    saved = os.path.join(ROOT, "build", "evidence.saved")
+    shutil.rmtree(saved, ignore_errors=True)
+    shutil.copytree(evdir, saved)           # evidence files must come from runs on the UNCHANGED tree
     try:
         for c in checks:
             t0 = time.time()
@@ -123,6 +127,8 @@ def run(slug, checks):
     finally:
         sh("git checkout -- .", cwd="/repo")
         sh("git clean -fdq -- engine builder context internal", cwd="/repo")
+        shutil.rmtree(evdir, ignore_errors=True)
+        shutil.copytree(saved, evdir)
     meta.setdefault("detection", {}).update(results)
     meta["detected_by"] = sorted(k for k, v in meta["detection"].items() if v["violations"] > 0)
     json.dump(meta, open(os.path.join(d, "meta.json"), "w"), indent=1)
